@@ -11,7 +11,7 @@ ROOT = os.path.dirname(os.path.dirname(os.path.abspath(__file__)))
 
 # builders numbered some findings independently: unique numbers for the consolidated file / DESIGN.md
 RENAME = {("C07", "F17"): "F30", ("C12", "F17"): "F31", ("C17", "F17"): "F32", ("C15", "F18"): "F33",
-          ("C20", "F18"): "F34", ("C20", "F18b"): "F34b"}
+          ("C20", "F18"): "F34", ("C20", "F18b"): "F34b", ("C08", "F17"): "F43", ("C08", "F18"): "F44"}
 
 FIXED = [
     ("C14", "F7", "BinaryZlibFile._fill_buffer stops at the end-of-stream marker", "zlib/gzip file followed by >= 1 byte: joblib.load never returned"),
